@@ -594,7 +594,23 @@ func (w *world) viewHeld() []heldView {
 	return out
 }
 
+// project takes a consistent snapshot: if anything moved while the dumps were taken (a FindChunkInfo loop going
+// round on its ticker), it is taken again.
 func (w *world) project() (kit.Ev, error) {
+	var ev kit.Ev
+	var err error
+	for try := 0; try < 6; try++ {
+		before := w.signature()
+		ev, err = w.projectOnce()
+		if err != nil || w.signature() == before {
+			break
+		}
+		time.Sleep(3 * time.Millisecond)
+	}
+	return ev, err
+}
+
+func (w *world) projectOnce() (kit.Ev, error) {
 	st := map[string]interface{}{}
 	for _, nm := range nodeNames {
 		if w.nodes[nm] == nil {
